@@ -33,7 +33,19 @@ pub fn outcomes(s: &str, ce: &ChemicalElements) -> Vec<Value> {
     ep!(s.parse::<ChemicalComposition>(), |c: &ChemicalComposition| canon(c.iter()));
     ep!(parse_formula(s), |c: &ChemicalComposition| canon(c.iter()));
     ep!(parse_formula_with_table(s, &PERIODIC_TABLE), |c: &ChemicalComposition| canon(c.iter()));
-    ep!(ce.parse_formula(s), |c: &ChemicalComposition| canon(c.iter()));
+    // parsed against the helper's OWN table, then read key by key through `get` / `[&key]` with EQUAL keys taken from the global
+    // table (an equal key must find the entry, whichever table instance its element reference points into)
+    ep!(ce.parse_formula(s), |c: &ChemicalComposition| {
+        let mut v: Vec<(String, u16, i32)> = c.iter().map(|(k, n)| {
+            let via_get = match PERIODIC_TABLE.get(k.element.symbol.as_str()) {
+                Some(e) => { let g = chemical_elements::ElementSpecification::new(e, k.isotope); let a = c.get(&g); let b = c[&g]; if a == b { a } else { i32::MIN } }
+                None => *n,
+            };
+            (k.element.symbol.clone(), k.isotope, via_get)
+        }).collect();
+        v.sort();
+        json!(v)
+    });
     ep!(s.parse::<ChemicalCompositionVec>(), |c: &ChemicalCompositionVec| canon(c.iter().map(|(k, v)| (k, v))));
     ep!(s.parse::<ChemicalCompositionMap>(), |c: &ChemicalCompositionMap| canon(c.iter()));
     ep!(ChemicalComposition::parse_with(s, &PERIODIC_TABLE), |c: &ChemicalComposition| canon(c.iter()));
